@@ -76,6 +76,15 @@ fn build(case: &Value) -> Built {
         b2 = b2.map(sub);
     }
     let mut b3: Vec<(String, String)> = B3_ORDER.iter().filter(|(t, _)| b3tags.iter().any(|x| x == t)).map(|(t, v)| (t.to_string(), v.to_string())).collect();
+    match case["tagval"].as_str().unwrap_or("long") {
+        "code" => for e in b3.iter_mut() {
+            match e.0.as_str() { "165" => e.1 = "ABC".into(), "433" => e.1 = "AOK".into(), "434" => e.1 = "FPO".into(), "423" => e.1 = "240718123456".into(), _ => {} }
+        },
+        "short" => for e in b3.iter_mut() {
+            match e.0.as_str() { "165" => e.1 = "ABC/X".into(), "433" => e.1 = "AOK/X".into(), "434" => e.1 = "FPO/X".into(), "423" => e.1 = "2407181234567".into(), _ => {} }
+        },
+        _ => {}
+    }
     if fault == "mur_with_colon_digit" {
         for e in b3.iter_mut() {
             if e.0 == "108" { e.1 = "REF4:5:6".into(); }
@@ -196,6 +205,44 @@ pub fn run(args: &[String]) -> i32 {
             };
             if twin_ser.as_ref() != Some(&ser) {
                 push(format!("C10|parse_with_errors|differs-from-parse|b3={}|b5={}", !built.b3.is_empty(), !built.b5.is_empty()), json!({"parse": ser, "parse_with_errors": twin_ser}));
+            }
+        }
+        // the parsed headers expose their components as written (a swap made consistently in parser and serialiser
+        // survives every round trip; it shows only here)
+        if fault == "none" {
+            let hj = serde_json::to_value(&m).unwrap_or(Value::Null);
+            let xxx = case["addr"] != "branch";
+            let mut want: Vec<(String, Value)> = vec![
+                ("basic_header.application_id".into(), json!("F")), ("basic_header.service_id".into(), json!("01")),
+                ("basic_header.logical_terminal".into(), json!(if xxx { "BANKBEBBAXXX" } else { "BANKBEBBA123" })),
+                ("basic_header.session_number".into(), json!("1234")), ("basic_header.sequence_number".into(), json!("567890")),
+                ("application_header.message_type".into(), json!("103")),
+            ];
+            if xxx { want.push(("basic_header.sender_bic".into(), json!("BANKBEBB"))); }
+            let shape = case["b2"].as_str().unwrap_or("");
+            if shape.starts_with('I') {
+                want.push(("application_header.direction".into(), json!("I")));
+                want.push(("application_header.destination_address".into(), json!(if xxx { "BANKDEFFXXXX" } else { "BANKDEFFX456" })));
+                if xxx { want.push(("application_header.receiver_bic".into(), json!("BANKDEFF"))); }
+                want.push(("application_header.priority".into(), json!("N")));
+                want.push(("application_header.delivery_monitoring".into(), if shape == "I_P" { Value::Null } else { json!("2") }));
+                want.push(("application_header.obsolescence_period".into(), if shape == "I_PMOOO" { json!("015") } else { Value::Null }));
+            } else {
+                want.push(("application_header.direction".into(), json!("O")));
+                want.push(("application_header.input_time".into(), json!("1158")));
+                want.push(("application_header.mir.date".into(), json!("240718")));
+                want.push(("application_header.mir.session_number".into(), json!("4321")));
+                want.push(("application_header.mir.sequence_number".into(), json!("098765")));
+                want.push(("application_header.output_date".into(), json!("240719")));
+                want.push(("application_header.output_time".into(), json!("1301")));
+                want.push(("application_header.priority".into(), if shape == "O_P" { json!("N") } else { Value::Null }));
+            }
+            for (path, w) in want {
+                let mut cur = &hj;
+                for k in path.split('.') { cur = &cur[k]; }
+                if *cur != w {
+                    push(format!("C10|header-component|{}|b2={}", path, shape), json!({"want": w, "got": cur}));
+                }
             }
         }
         // C02 on the envelope: the serialised text is accepted again, gives an equal message, and is a fixed point
